@@ -50,9 +50,9 @@ def render_tr(v, rng, plain=False, templates=None):
 
 
 # --- sections ---------------------------------------------------------------
-THRU = [" - ", "-", " – ", " through ", " thru ", " to ", " Through ", " THRU ", " To "]
+THRU = [" - ", "-", " – ", " — ", " through ", " thru ", " to ", " Through ", " THRU ", " To "]
 AND = [", ", " and ", " & ", ", and ", " And ", " AND "]
-SEC_WORDS = [("Sec", "Secs"), ("Sec.", "Secs."), ("Section", "Sections"), ("Sect.", "Sects."), ("§", "§")]
+SEC_WORDS = [("Sec", "Secs"), ("Sec.", "Secs."), ("Section", "Sections"), ("Sect.", "Sects."), ("Sect", "Sects"), ("§", "§")]
 
 
 def render_sec(nums, conns, colon, rng, plain=False):
@@ -60,7 +60,9 @@ def render_sec(nums, conns, colon, rng, plain=False):
     word = plur if len(nums) > 1 and rng.random() < 0.7 else sing
     if word == "§" and len(nums) == 1 and nums[0] < 10:
         word = "Sec"          # a section reference is always at least 4 characters long (reporting threshold)
-    out = "%s %d" % (word, nums[0])
+    # (the symbol and the abbreviations with a period are also written tight against the number: '§14', 'Sec.14')
+    gap = "" if (not plain and word[-1] in "§." and rng.random() < 0.25 and not (word == "§" and len(nums) == 1)) else " "
+    out = "%s%s%d" % (word, gap, nums[0])
     for j in range(1, len(nums)):
         c = (THRU if conns[j - 1] == "THRU" else AND)[0] if plain else rng.choice(THRU if conns[j - 1] == "THRU" else AND)
         out += c + str(nums[j])
